@@ -111,6 +111,8 @@ reg(Check("C17", "model_checking",
           "bounded by 3 (2 for 4-5 nodes), at most 8 messages in flight, vote_after = node_fail_after = 2; to a fixpoint. "
           "The same search is repeated from a scripted non-initial state (leader a has declared the cut-off node b dead, the others "
           "have adopted the reduced ring, the network has healed) for 3 nodes (B = 2 / 3) and, thorough only, 4 nodes. "
+          "Follower: one real node (real run loop, Cluster.Health, Cluster.Vote) against every sequence of {health check from a|c with term 1..3, "
+          "vote request of a|c for term 1..3} up to length 3 (quick, 1884 sequences) / 4 (thorough): term never decreases, one vote per term, stale health checks change nothing. "
           "Gate: all sequences up to length 3 (quick) / 4 (thorough) of {join, publish, get, leave, route} x {same ring, other ring} "
           "and X rehashing, through the real TopicMaster / Route endpoints. Non-trivial = distinct canonical states / sequences.",
           ["hash ties are judged for order-independence and totality only, not for which node wins",
@@ -132,6 +134,7 @@ reg(Check("C17", "model_checking",
                  Part("election4", SRV, "^TestVerifC17Election4$", instr=True, gomaxprocs=16, deadline=(300, 1800)),
                  Part("split4", SRV, "^TestVerifC17Split4$", instr=True, gomaxprocs=16, deadline=(300, 1800)),
                  Part("reelected3", SRV, "^TestVerifC17Reelected3$", instr=True, gomaxprocs=16, deadline=(300, 1800)),
+                 Part("follower", SRV, "^TestVerifC17Follower$", instr=True, deadline=(300, 1800)),
                  Part("election5", SRV, "^TestVerifC17Election5$", instr=True, gomaxprocs=16, deadline=(300, 1800))]))
 
 reg(Check("C12", "exploration",
